@@ -679,6 +679,41 @@ Definition rollback_reaches (s : st) : bool :=
                      | None => true
                      end) (all_ids s Txn).
 
+(* GUARD of parent-side writes in the history theorem: the other reachable undestroyed parent-side instances
+   of the row of instance o cache nothing (there is one live copy of the row on the parent side -- the
+   identity-map property C04, which expire()'s purge of the cache breaks) *)
+Definition others_blankb (s : st) (o : nat) : bool :=
+  forallb (fun o' => Nat.eqb o' o || negb (reachable_obj s Par o') || i_obsolete (get_inst s Par o') ||
+                     negb (i_id (get_inst s Par o') =? i_id (get_inst s Par o)) || no_vals (get_inst s Par o'))
+          (seq_nat (length (heap (par s)))).
+
+(* what a step of a history must satisfy for the parent side to stay fresh: commits reach what they must;
+   an assignment through a parent-side instance goes to an existing row and column and to the only cached
+   copy; so does destroySelf *)
+Definition step_ok (s : st) (o : op) : bool :=
+  match o with
+  | OCommit _ => tobs s || commit_reaches s
+  | OSet h c _ =>
+      match nth h (slots s) None, pending s with
+      | Some (Par, x), None =>
+          others_blankb s x &&
+          match tbl_lookup (committed s) (i_id (get_inst s Par x)) with Some r => Nat.ltb c (length r) | None => false end
+      | _, _ => true
+      end
+  | ODestroy h =>
+      match nth h (slots s) None, pending s with
+      | Some (Par, x), None => others_blankb s x
+      | _, _ => true
+      end
+  | _ => true
+  end.
+
+Fixpoint hist_ok (s : st) (ops : list op) : bool :=
+  match ops with
+  | [] => true
+  | o :: rest => step_ok s o && hist_ok (snd (step s o)) rest
+  end.
+
 (* does the operation need the database?  (what a finished transaction must refuse) *)
 Definition needs_db (s : st) (o : op) : bool :=
   match o with
